@@ -17,6 +17,7 @@ import (
 	"os/exec"
 	"runtime"
 	"runtime/debug"
+	"runtime/pprof"
 	"strconv"
 	"strings"
 	"sync"
@@ -33,6 +34,7 @@ type decStat struct {
 	Accepted      int64   `json:"accepted"`
 	RejectedEOF   int64   `json:"rejected_short_input"`
 	RejectedOther int64   `json:"rejected_by_check"`
+	AllocSum      uint64  `json:"alloc_sum_bytes"`
 	MaxAlloc      uint64  `json:"max_alloc_bytes"`
 	MaxAllocX     float64 `json:"max_alloc_x_MaxMessagePayload"`
 	MaxAllocInput string  `json:"max_alloc_input"`
@@ -82,11 +84,17 @@ func kindsOf(fs []finding) string {
 }
 
 func caseKey(dec string, c rw.Ctx, in []byte) [16]byte {
-	h := sha256.New()
-	fmt.Fprintf(h, "%s|%d|%v|", dec, c.Pver, c.Witness)
-	h.Write(in)
+	w := byte(0)
+	if c.Witness {
+		w = 1
+	}
+	buf := make([]byte, 0, len(dec)+8+len(in))
+	buf = append(buf, dec...)
+	buf = append(buf, '|', byte(c.Pver), byte(c.Pver>>8), byte(c.Pver>>16), byte(c.Pver>>24), w, '|')
+	buf = append(buf, in...)
+	h := sha256.Sum256(buf)
 	var k [16]byte
-	copy(k[:], h.Sum(nil))
+	copy(k[:], h[:])
 	return k
 }
 
@@ -100,7 +108,7 @@ func inputID(in []byte) string {
 // warmUp makes the allocation numbers independent of process history: btcd
 // keeps a pool with one 4 MiB script slab per concurrent transaction decode.
 func warmUp() {
-	b, _ := rw.EncodeTx(smallTxs()[0], true)
+	b := rw.EncodeTxBytes(smallTxs()[0], true)
 	for i := 0; i < 3; i++ {
 		decodeOnce("msg:tx", rw.Ctx{Witness: true}, b)
 		decodeOnce("msg:block", rw.Ctx{Witness: true}, make([]byte, 81))
@@ -141,6 +149,11 @@ func workerMain(spec, out string, full bool) {
 	kw := bufio.NewWriterSize(kf, 1<<20)
 
 	warmUp()
+	if pf := os.Getenv("C08_WPROF"); pf != "" {
+		f, _ := os.Create(pf)
+		pprof.StartCPUProfile(f)
+		defer pprof.StopCPUProfile()
+	}
 	res := &workerResult{PerDec: map[string]*decStat{}}
 	groups := hostileGroups(full)
 	violPerKind := map[string]int{}
@@ -174,6 +187,7 @@ func workerMain(spec, out string, full bool) {
 			default:
 				st.RejectedOther++
 			}
+			st.AllocSum += cr.alloc
 			if cr.alloc > st.MaxAlloc {
 				st.MaxAlloc = cr.alloc
 				st.MaxAllocX = float64(cr.alloc) / float64(32<<20)
@@ -219,6 +233,7 @@ func workerMain(spec, out string, full bool) {
 	kw.Flush()
 	kf.Close()
 	res.Done = true
+	pprof.StopCPUProfile()
 	b, _ := json.Marshal(res)
 	if err := os.WriteFile(out+".json", b, 0o644); err != nil {
 		fmt.Fprintln(os.Stderr, "worker: result:", err)
@@ -316,7 +331,7 @@ func runWorkers(r *ev.Run, full bool, nWorkers int, tmp string) map[string]*decS
 			for {
 				os.Remove(out + ".json")
 				cmd := exec.Command(os.Args[0], tier)
-				cmd.Env = append(os.Environ(), fmt.Sprintf("C08_WORKER=%d/%d", w, nWorkers), "C08_OUT="+out, "C08_RESUME="+resume)
+				cmd.Env = append(os.Environ(), fmt.Sprintf("C08_WORKER=%d/%d", w, nWorkers), "C08_OUT="+out, "C08_RESUME="+resume, "GODEBUG=madvdontneed=0")
 				var eb strings.Builder
 				cmd.Stderr = &tailWriter{b: &eb}
 				runErr := cmd.Run()
@@ -393,6 +408,7 @@ func mergeResult(r *ev.Run, res *workerResult, merged map[string]*decStat) {
 		m.Accepted += s.Accepted
 		m.RejectedEOF += s.RejectedEOF
 		m.RejectedOther += s.RejectedOther
+		m.AllocSum += s.AllocSum
 		if s.MaxAlloc > m.MaxAlloc {
 			m.MaxAlloc, m.MaxAllocX, m.MaxAllocInput = s.MaxAlloc, s.MaxAllocX, s.MaxAllocInput
 		}
